@@ -356,7 +356,8 @@ theorem c13_actions_once_per_change (r : Rule) (n : Bytes) (pts : List Pt) (now 
 
 /-- **C13 (set-value payload).** A well-formed set-value action publishes exactly one point: the
 configured type, value and text on the target node — with the RULE as origin whenever the target is not
-the rule's own node; a malformed or unknown action publishes nothing. -/
+the rule's own node; a malformed or unknown action, and a play-audio action whose file cannot be opened (an action
+error after the repair; it used to end the process with log.Fatal), publishes nothing. -/
 theorem c13_setvalue_payload (rid : Bytes) (a : Act) :
     (a.action = sSetValue → a.nodeID ≠ [] → a.pointType ≠ [] →
       payload rid a = [send rid a.nodeID a.pointType a.value a.valueText a.id] ∧
@@ -369,9 +370,13 @@ theorem c13_setvalue_payload (rid : Bytes) (a : Act) :
     intro h
     simp [send, h]
   · rintro (h | h | h)
-    · simp [h]
-    · by_cases ha : a.action = sSetValue <;> simp [ha, h]
-    · by_cases ha : a.action = sSetValue <;> by_cases hn : a.nodeID = [] <;> simp [ha, hn, h]
+    · simp only [h, if_false]; split <;> rfl
+    · by_cases ha : a.action = sSetValue
+      · simp [ha, h]
+      · simp only [ha, if_false]; split <;> rfl
+    · by_cases ha : a.action = sSetValue
+      · by_cases hn : a.nodeID = [] <;> simp [ha, hn, h]
+      · simp only [ha, if_false]; split <;> rfl
 
 /-! ### non-vacuity: a concrete rule going through both transitions -/
 
